@@ -126,6 +126,8 @@ fn main() {
                 std::process::exit(3);
             }
         }
+        // one adapter instance per configured server id, used for all logins with it -- as the application does
+        let mut adapters: std::collections::HashMap<String, std::sync::Arc<MojangAdapter>> = std::collections::HashMap::new();
         for (k, line) in text.lines().filter(|l| !l.trim().is_empty()).enumerate() {
             let vec: Value = serde_json::from_str(line).expect("json");
             let rec = match case_of(&vec) {
@@ -134,7 +136,7 @@ fn main() {
                 Ok(c) => {
                     let hash = std::panic::catch_unwind(|| minecraft_hash(&c.sid, &c.secret, &c.pubkey)).unwrap_or_default();
                     server.arm(c.script.clone());
-                    let adapter = MojangAdapter::default().with_server_id(c.sid.clone());
+                    let adapter = adapters.entry(c.sid.clone()).or_insert_with(|| std::sync::Arc::new(MojangAdapter::default().with_server_id(c.sid.clone()))).clone();
                     let (name, secret, pubkey) = (c.name.clone(), c.secret.clone(), c.pubkey.clone());
                     let uuid = Uuid::from_u128(0x0123_4567_89ab_cdef_0123_4567_89ab_cdef);
                     // a task of its own: a panic in the code under test is data
@@ -146,7 +148,10 @@ fn main() {
                         .await
                     });
                     let (result, error, profile) = match call.await {
-                        Err(_) => ("panic", String::new(), None),
+                        Err(_) => {
+                            adapters.remove(&c.sid);
+                            ("panic", String::new(), None)
+                        }
                         Ok(Err(_)) => ("timeout", String::new(), None),
                         Ok(Ok(Err(e))) => ("err", error_label(&e), None),
                         Ok(Ok(Ok(p))) => ("ok", String::new(), Some(p)),
